@@ -220,14 +220,17 @@ class _JaxtypingLoader(SourceFileLoader):
             compile, tree, path, "exec", dont_inherit=True, optimize=_optimize
         )
 
-    def exec_module(self, module):
+    def get_code(self, fullname):
         # Use a custom optimization marker - the import lock should make this monkey
-        # patch safe
+        # patch safe.
+        # Only patch whilst obtaining this module's own code object (reading or writing
+        # its cached bytecode), not whilst executing the module: any other modules
+        # imported from inside the module body must use their own cache files.
         with patch(
             "importlib._bootstrap_external.cache_from_source",
             ft.partial(_optimized_cache_from_source, self._typechecker.get_hash()),
         ):
-            return super().exec_module(module)
+            return super().get_code(fullname)
 
 
 class _JaxtypingFinder(MetaPathFinder):
